@@ -374,6 +374,35 @@ Section chain.
     destruct (pin_kept b q Hb) as [_ ->]; [apply elem_of_union; by right|done|]. done.
   Qed.
 
+  (* --- a primary output of the flop circuit (not a pin) survives, under its own name, as an output --- *)
+  Lemma n_out_expose i : n_out i = true → n_out (expose_info i) = true.
+  Proof. unfold expose_info. by destruct (n_ty i). Qed.
+  Lemma chain_output o : (∀ u, u ∈ U → is_output g2 u = false) → o ∈ outputs g → o ∉ bb_pins g → ρ o = o ∧ o ∈ outputs g3.
+  Proof.
+    intros HU2 (i & Hi & Ho)%elem_of_outputs Hnp.
+    assert (o ∉ kept) as Hk by (unfold kept, kept_pins; rewrite elem_of_difference; tauto).
+    assert (Hr : ρ o = o) by by apply rho_notkept.
+    split; [done|].
+    assert (HoI : o ∉ (list_to_set (elements I) : gset string)).
+    { rewrite elem_of_list_to_set, elem_of_elements. unfold I, ignored_pins. rewrite elem_of_filter. tauto. }
+    assert (Hp : pruned !! o = Some i) by (unfold pruned; by rewrite (remove_kept_lookup g (elements I) Hdis0)).
+    assert (Hh : h !! o = Some (ren_info ρ (expose_info i))).
+    { rewrite <- Hr at 1. unfold h. rewrite lookup_rename_on; [|apply h_inj|rewrite dom_fmap_L; apply elem_of_dom; eauto].
+      by rewrite lookup_fmap, Hp. }
+    assert (Hod : o ∈ dom g) by (apply elem_of_dom; eauto).
+    assert (HoA : o ∉ (list_to_set A : gset string)).
+    { intros (b & p & Hb & Hp' & _ & E)%in_A. subst o. destruct (nm_pin b p Hb) as [_ Hn]; [apply elem_of_union; by left|]. by apply Hn. }
+    assert (HoB : o ∉ (list_to_set B : gset string)).
+    { intros (b & p & Hb & Hp' & _ & E)%in_B. subst o. destruct (nm_pin b p Hb) as [_ Hn]; [apply elem_of_union; by right|]. by apply Hn. }
+    assert (H1 : g1 !! o = Some (ren_info ρ (expose_info i))) by (unfold g1; by rewrite (remove_kept_lookup h A Hdis1)).
+    assert (H2 : g2 !! o = Some (ren_info ρ (expose_info i))) by (unfold g2; by rewrite (remove_kept_lookup g1 B Hdis2)).
+    assert (Hout : n_out (ren_info ρ (expose_info i)) = true) by (cbn [ren_info n_out]; by apply n_out_expose).
+    assert (HoU : o ∉ (list_to_set U : gset string)).
+    { rewrite elem_of_list_to_set. intros Hu. specialize (HU2 o Hu). unfold is_output in HU2. rewrite H2 in HU2. change (n_out (expose_info i) = false) in HU2.
+      by rewrite (n_out_expose i Ho) in HU2. }
+    apply elem_of_outputs. exists (ren_info ρ (expose_info i)). split; [|done]. unfold g3. by rewrite (remove_kept_lookup g2 U Hdis3).
+  Qed.
+
   (* --- the run of g3 is the flop circuit's run --- *)
   Context (Hac : acyclic g) (Hcl3 : closed g3) (Hac3 : acyclic g3).
   Context (Hkeys3 : ∀ b, b ∈ dom (c_bbs C) → pre b d ∈ dom g3).
@@ -428,7 +457,8 @@ Theorem seq_flop_correct C n d q ign afo iv ru prefix CS sio :
   let ρ := pin_rho (kept_pins (c_g C) ign) in
   ∃ U m, sequential_unroll C n d q ign afo iv ru prefix = Ok (U, m) ∧ dom m = io_of (c_g CS) ∧
     (∀ b, b ∈ dom (c_bbs C) → ρ (Api.pin b d) = pre b d ∧ ρ (Api.pin b q) = pre b q ∧ pre b d ∈ dom m ∧ pre b q ∈ dom m) ∧
-    (∀ b bb p, c_bbs C !! b = Some bb → p ∈ bb_pinset bb → p ≠ d → p ≠ q → pre b p ∉ dom m) ∧
+    (∀ b bb p, c_bbs C !! b = Some bb → p ∈ bb_pinset bb → p ≠ d → p ≠ q → pre b p ∉ dom (c_g CS) ∧ pre b p ∉ dom m) ∧
+    (∀ o, o ∈ outputs (c_g C) → o ∉ bb_pins (c_g C) → ρ o = o ∧ o ∈ outputs (c_g CS) ∧ o ∈ dom m) ∧
     ∀ w, consistent (c_g U) w →
       let st := λ v, w (io_name (ρ v) prefix 0) in
       let ins := λ t i, w (io_name (ρ i) prefix t) in
@@ -441,17 +471,25 @@ Proof.
   assert (Hk : ∀ kv, kv ∈ sio → kv.1 ∈ dom (c_g CS) ∧ kv.1 ∈ io_of (c_g CS) ∧ kv.2 ∈ io_of (c_g CS)).
   { intros kv Hkv. destruct Hsio as (Hs1 & _). rewrite Forall_forall in Hs1. destruct (Hs1 kv Hkv) as [H1 H2].
     assert (kv.1 ∈ io_of (c_g CS)) by (apply elem_of_union; by right). split; [by apply io_of_dom|]. split; [done|]. apply elem_of_union; by left. }
-  split; [|split].
+  split; [|split; [|split]].
   - intros b Hb. destruct (seq_stripped_inv _ _ _ _ _ _ _ Hs) as (R & bb & HR & Hsame & Hd & Hq & HCS & Esio). cbv zeta in HCS.
     assert ((pre b d, pre b q) ∈ sio) as Hin by (rewrite Esio; apply elem_of_list_fmap; exists b; split; [done|by apply elem_of_elements]).
     destruct (Hk _ Hin) as (_ & H1 & H2). rewrite Hdom. simpl in H1, H2.
     assert (ρ (Api.pin b d) = pre b d ∧ ρ (Api.pin b q) = pre b q) as [E1 E2]; [|done].
     eapply (chain_dq C d q ign bb []); try done. intros u Hu. by apply elem_of_nil in Hu.
-  - intros b bb' p Hb Hp Hpd Hpq. rewrite Hdom. intros Hin%io_of_dom.
+  - intros b bb' p Hb Hp Hpd Hpq.
+    assert (pre b p ∉ dom (c_g CS)) as Hno; [|split; [done|rewrite Hdom; by intros Hin%io_of_dom]].
     destruct (seq_stripped_inv _ _ _ _ _ _ _ Hs) as (R & bb & HR & Hsame & Hd & Hq & HCS & Esio). cbv zeta in HCS.
-    apply strip_blackboxes_inv in HR as (_ & _ & ->). cbn [c_g] in HCS. subst CS. cbn [c_g with_g] in Hin.
-    revert Hin. apply (no_pin_after_removal _ bb); try done; [apply elem_of_elements, elem_of_dom; eauto|].
+    apply strip_blackboxes_inv in HR as (_ & _ & ->). cbn [c_g] in HCS. subst CS. cbn [c_g with_g].
+    apply (no_pin_after_removal _ bb); try done; [apply elem_of_elements, elem_of_dom; eauto|].
     destruct (Hsame b bb' Hb) as [E1 E2]. unfold bb_pinset in *. by rewrite <- E1, <- E2.
+  - intros o Ho Hnp.
+    assert (ρ o = o ∧ o ∈ outputs (c_g CS)) as [E1 E2]; [|split; [done|split; [done|rewrite Hdom; apply elem_of_union; by right]]].
+    destruct (seq_stripped_inv _ _ _ _ _ _ _ Hs) as (R & bb & HR & Hsame & Hd & Hq & HCS & Esio). cbv zeta in HCS.
+    apply strip_blackboxes_inv in HR as (_ & _ & ->). cbn [c_g] in HCS. subst CS. cbn [c_g with_g].
+    eapply (chain_output C d q ign bb); try done.
+    + intros u Hu. destruct ru; [|by apply elem_of_nil in Hu]. apply elem_of_elements, elem_of_filter in Hu as [[Hu _] _]. exact Hu.
+    + intros u Hu. destruct ru; [|by apply elem_of_nil in Hu]. apply elem_of_elements, elem_of_filter in Hu as [(_ & _ & Hu) _]. exact Hu.
   - intros w Hcw. cbv zeta. intros x t Hx Hm Ht. rewrite Hdom in Hm. destruct (Hsim w Hcw (ρ x) t Hm Ht) as [H1 H2]. split; [done|].
     rewrite H2. symmetry.
     apply (stripped_is_flop_run C d q ign ru CS sio (λ v, w (io_name v prefix 0)) (λ t i, w (io_name i prefix t)) t x); try done.
@@ -604,7 +642,9 @@ Theorem seq_flop_full C n d q ign afo iv ru prefix CS sio :
   ∃ U m, sequential_unroll C n d q ign afo iv ru prefix = Ok (U, m) ∧ dom m = io_of (c_g CS) ∧
     (* io map: D and Q pin of every flop (under their flattened names), no other pin, ignored or not *)
     (∀ b, b ∈ dom (c_bbs C) → ρ (Api.pin b d) = pre b d ∧ ρ (Api.pin b q) = pre b q ∧ pre b d ∈ dom m ∧ pre b q ∈ dom m) ∧
-    (∀ b bb p, c_bbs C !! b = Some bb → p ∈ bb_pinset bb → p ≠ d → p ≠ q → pre b p ∉ dom m) ∧
+    (∀ b bb p, c_bbs C !! b = Some bb → p ∈ bb_pinset bb → p ≠ d → p ≠ q → pre b p ∉ dom (c_g CS) ∧ pre b p ∉ dom m) ∧
+    (* every primary output of the flop circuit is an io of the stripped circuit under its own name *)
+    (∀ o, o ∈ outputs (c_g C) → o ∉ bb_pins (c_g C) → ρ o = o ∧ o ∈ outputs (c_g CS) ∧ o ∈ dom m) ∧
     (* cycle-accurate simulation of the flop circuit: state = Q pins, next state = D pins *)
     (∀ w, consistent (c_g U) w →
       let st := λ v, w (io_name (ρ v) prefix 0) in
@@ -622,9 +662,9 @@ Theorem seq_flop_full C n d q ign afo iv ru prefix CS sio :
 Proof.
   intros Hs Hl Hcl Hac Hnm Hw Hdi Hqi Hl3 Hb3 Hcl3 Hac3 Hpl Hvn Hfr Hn Hsio Hun Hiv Hadd Hivn ρ.
   destruct (seq_flop_correct C n d q ign afo iv ru prefix CS sio Hs Hl Hcl Hac Hnm Hw Hdi Hqi Hl3 Hb3 Hcl3 Hac3 Hpl Hvn Hfr Hn Hsio Hun Hiv Hadd)
-    as (U & m & HU & Hdom & Hdq & Hnop & Hsim).
+    as (U & m & HU & Hdom & Hdq & Hnop & Hpo & Hsim).
   destruct (seq_marks C n d q ign afo iv ru prefix U m CS sio Hs (lint_clean_inputs_undriven9 CS Hl3) Hsio Hun Hiv Hivn Hn HU) as [Hout Hty].
-  exists U, m. do 5 (split; [done|]).
+  exists U, m. do 6 (split; [done|]).
   assert (Hty' : ∀ b, b ∈ dom (c_bbs C) → ty (c_g U) (io_name (pre b q) prefix 0) = Some (default Input (init_of iv b))) by (intros b Hb; by apply Hty).
   split; [done|]. split; [|split].
   - intros w Hcw b Hb. specialize (Hty' b Hb). apply ty_dom in Hty' as (j & Hj & Ht). specialize (Hcw _ _ Hj). unfold node_ok, is_free in Hcw.
